@@ -13,9 +13,9 @@ use cw_utils::Expiration;
 use proptest::prelude::*;
 use serde::{Deserialize, Serialize};
 use std::collections::{BTreeMap, BTreeSet};
-use vcore::amounts::{edge_u128, mostly_small_u128};
+use vcore::amounts::{arb_below, arb_bool, arb_u128, edge_u128, mostly_small_u128};
 use vcore::direct::Direct;
-use vcore::exp::{exp_spec, is_expired, opt_exp_spec, ExpSpec};
+use vcore::exp::{arb_exp, arb_opt_exp, exp_spec, is_expired, opt_exp_spec, ExpSpec};
 use vcore::{CaseCtx, Family, PropSpec, Tier, Violation};
 
 pub const N_ACTORS: u8 = 5;
@@ -1226,4 +1226,110 @@ impl Family for Cw20Family {
     fn run(&self, prop: &str, case: &Case, ctx: &mut CaseCtx) -> Result<(), Violation> {
         run_case(prop, case, ctx)
     }
+    fn decode(&self, prop: &str, u: &mut arbitrary::Unstructured) -> Option<Case> {
+        Some(decode_case(prop, u))
+    }
+}
+
+// ---------------------------------------------------------------- byte decoder (fuzz front-end)
+
+fn d_actor(u: &mut arbitrary::Unstructured) -> u8 {
+    arb_below(u, N_ACTORS as usize) as u8
+}
+fn d_rcpt(u: &mut arbitrary::Unstructured) -> u8 {
+    if arb_bool(u, 1, 24) {
+        N_ACTORS + arb_below(u, (N_RCPT - N_ACTORS) as usize) as u8
+    } else {
+        d_actor(u)
+    }
+}
+fn d_amt(u: &mut arbitrary::Unstructured) -> Amt {
+    let d = |u: &mut arbitrary::Unstructured| arb_below(u, 3) as i8 - 1;
+    match arb_below(u, 12) {
+        0..=3 => Amt::Abs(arb_u128(u)),
+        4 => Amt::Rel(Rel::Debited, d(u)),
+        5 | 6 => Amt::Rel(Rel::ThisAllowance, d(u)),
+        7 => Amt::FracDebited(u.arbitrary().unwrap_or(0)),
+        8 => Amt::FracAllowance(u.arbitrary().unwrap_or(0)),
+        9 => Amt::Rel(Rel::BalanceOf(d_actor(u)), d(u)),
+        10 => Amt::Rel(Rel::CapRoom, d(u)),
+        _ => Amt::Rel(Rel::Supply, d(u)),
+    }
+}
+fn d_pair(u: &mut arbitrary::Unstructured) -> Pair {
+    if arb_bool(u, 3, 4) {
+        Pair::Granted(u.arbitrary().unwrap_or(0))
+    } else {
+        Pair::Explicit(d_actor(u), d_actor(u))
+    }
+}
+fn d_who(u: &mut arbitrary::Unstructured) -> Who {
+    if arb_bool(u, 3, 5) {
+        Who::Minter
+    } else {
+        Who::Actor(d_actor(u))
+    }
+}
+fn d_payload(u: &mut arbitrary::Unstructured) -> Vec<u8> {
+    let n = arb_below(u, 6);
+    (0..n).map(|_| u.arbitrary().unwrap_or(0)).collect()
+}
+
+pub fn decode_case(prop: &str, u: &mut arbitrary::Unstructured) -> Case {
+    let n_acc = arb_below(u, 7);
+    let irregular = arb_bool(u, 1, 8);
+    let mut accounts = vec![];
+    for i in 0..n_acc {
+        let who = if irregular { d_rcpt(u) } else { (i as u8) % N_ACTORS };
+        let amount = if arb_bool(u, 3, 4) { u.arbitrary::<u32>().unwrap_or(0) as u128 % 100_000 } else { arb_u128(u) };
+        accounts.push((who, amount));
+    }
+    if !irregular {
+        accounts.truncate(N_ACTORS as usize);
+    }
+    let mint = if arb_bool(u, 3, 4) {
+        let cap = match arb_below(u, 6) {
+            0 => None,
+            1 | 2 => Some(Cap::SupplyPlus(arb_below(u, 3) as u128)),
+            3 => Some(Cap::SupplyPlus(u.arbitrary::<u16>().unwrap_or(0) as u128 % 5000)),
+            4 => Some(Cap::SupplyMinus(1 + arb_below(u, 2) as u128)),
+            _ => Some(Cap::Abs(arb_u128(u))),
+        };
+        Some((d_rcpt(u), cap))
+    } else {
+        None
+    };
+    let legacy = if prop == "C19" && arb_bool(u, 2, 5) {
+        let n = arb_below(u, 12);
+        let mut v = vec![];
+        for _ in 0..n {
+            let (o, sp) = (d_actor(u), d_actor(u));
+            if o == sp {
+                continue;
+            }
+            v.push(LegacyAllowance { owner: o, spender: sp, amount: if arb_bool(u, 4, 5) { 1 + u.arbitrary::<u16>().unwrap_or(0) as u128 % 10_000 } else { arb_u128(u) }, exp: arb_exp(u) });
+        }
+        Some(v)
+    } else {
+        None
+    };
+    let n_ops = arb_below(u, 48);
+    let mut ops = vec![];
+    for _ in 0..n_ops {
+        let op = match arb_below(u, 14) {
+            0 | 1 => Op::Transfer { from: d_actor(u), to: d_rcpt(u), amt: d_amt(u) },
+            2 => Op::Send { from: d_actor(u), to: d_rcpt(u), amt: d_amt(u), payload: d_payload(u) },
+            3 => Op::Burn { from: d_actor(u), amt: d_amt(u) },
+            4 => Op::Mint { by: d_who(u), to: d_rcpt(u), amt: d_amt(u) },
+            5 | 6 => Op::Increase { owner: d_actor(u), spender: d_rcpt(u), amt: d_amt(u), exp: arb_opt_exp(u) },
+            7 => Op::Decrease { pair: d_pair(u), amt: d_amt(u), exp: arb_opt_exp(u) },
+            8 | 9 => Op::TransferFrom { pair: d_pair(u), to: d_rcpt(u), amt: d_amt(u) },
+            10 => Op::SendFrom { pair: d_pair(u), to: d_rcpt(u), amt: d_amt(u), payload: d_payload(u) },
+            11 => Op::BurnFrom { pair: d_pair(u), amt: d_amt(u) },
+            12 => Op::UpdateMinter { by: d_who(u), new: if arb_bool(u, 3, 4) { Some(d_rcpt(u)) } else { None } },
+            _ => Op::Advance { blocks: arb_below(u, 4) as u8, secs: arb_below(u, 40) as u16 },
+        };
+        ops.push(op);
+    }
+    Case { init: Init { accounts, mint }, legacy, ops }
 }
